@@ -22,8 +22,8 @@ VARIABLES net,        \* chunks in flight on the transport
           rwcClosed,  \* transport closed locally (rwc.Close)
           srMode,     \* "raw" | "pipe"
           srPending,  \* pipe installed, switch not yet performed
-          rd,         \* reader (serve) goroutine: "idle","inRaw","inPipe","failing","handler","closing","exited"
-          cp,         \* copier goroutine: "none","inRaw","inWrite","closing","done"
+          rd,         \* reader (serve) goroutine: "idle","inRaw","inPipe","failing","handler","closing","finishing","exited"
+          cp,         \* copier goroutine: "none","inRaw","inWrite","closing","notifying","done"
           pipe,       \* <<>> or <<chunk>>: chunk offered by the copier, not yet consumed
           pipeEnd,    \* pw.CloseWithError called (copier finished)
           prClosed,   \* pipe reader closed by the serve exit path (Fixed)
@@ -67,11 +67,15 @@ Deliver(k) == IF k = "m" THEN rd' = "handler" /\ got' = Append(got, k)
 \* read fails (CloseRwc, part of the Rd*End / RdFail actions); the deferred function then closes it
 \* again and runs finish() (RdFinish).  The copier can run to completion in between.
 Exit == rd' = "closing" /\ rwcClosed' = TRUE /\ UNCHANGED <<prClosed, gone, cn>>
-RdFinish == /\ rd = "closing" /\ rd' = "exited"
-            /\ IF Fixed THEN /\ prClosed' = TRUE /\ gone' = TRUE
-                             /\ cn' = IF cn = "open" THEN "closed" ELSE cn
-                        ELSE UNCHANGED <<prClosed, gone, cn>>
-            /\ UNCHANGED <<net, netEnd, rwcClosed, srMode, srPending, cp, pipe, pipeEnd, sent, got, ncn, nsent>>
+\* finish() itself is two steps as well: it closes the read end of the pipe (RdFinish), then calls
+\* notifyClientGone (RdFinished) - a CloseNotify request can fall in between and still gets an open
+\* channel, which RdFinished then closes.  The original code has no finish(): the loop just ends.
+NotifyGone == gone' = TRUE /\ cn' = IF cn = "open" THEN "closed" ELSE cn
+RdFinish == /\ rd = "closing"
+            /\ IF Fixed THEN rd' = "finishing" /\ prClosed' = TRUE ELSE rd' = "exited" /\ UNCHANGED prClosed
+            /\ UNCHANGED <<net, netEnd, rwcClosed, srMode, srPending, cp, pipe, pipeEnd, cn, gone, sent, got, ncn, nsent>>
+RdFinished == /\ rd = "finishing" /\ rd' = "exited" /\ NotifyGone
+              /\ UNCHANGED <<net, netEnd, rwcClosed, srMode, srPending, cp, pipe, pipeEnd, prClosed, sent, got, ncn, nsent>>
 RdFail == /\ rd = "failing" /\ Exit
           /\ UNCHANGED <<net, netEnd, srMode, srPending, cp, pipe, pipeEnd, sent, got, ncn, nsent>>
 RdRawData == /\ rd = "inRaw" /\ ~rwcClosed /\ net # <<>>
@@ -92,7 +96,6 @@ HandlerReturn == /\ rd = "handler" /\ rd' = "idle"
 CpRead == /\ cp = "inRaw" /\ ~rwcClosed /\ net # <<>>
           /\ pipe' = <<Head(net)>> /\ net' = Tail(net) /\ cp' = "inWrite"
           /\ UNCHANGED <<netEnd, rwcClosed, srMode, srPending, rd, pipeEnd, prClosed, cn, gone, sent, got, ncn, nsent>>
-Notify == IF cn = "open" /\ ~gone THEN cn' = "closed" /\ gone' = TRUE ELSE UNCHANGED <<cn, gone>>
 \* io.Copy returned: pw.CloseWithError (the reader may now see the end of the pipe) ...
 CpEnd == /\ cp = "inRaw" /\ (rwcClosed \/ (net = <<>> /\ netEnd # "open"))
          /\ cp' = "closing" /\ pipeEnd' = TRUE
@@ -101,11 +104,14 @@ CpEnd == /\ cp = "inRaw" /\ (rwcClosed \/ (net = <<>> /\ netEnd # "open"))
 CpWriteFails == /\ cp = "inWrite" /\ prClosed
                 /\ cp' = "closing" /\ pipeEnd' = TRUE /\ pipe' = <<>>
                 /\ UNCHANGED <<net, netEnd, rwcClosed, srMode, srPending, rd, prClosed, cn, gone, sent, got, ncn, nsent>>
-\* ... and then notifyClientGone, as a separate step
-CpNotify == /\ cp = "closing" /\ cp' = "done" /\ Notify
-            /\ UNCHANGED <<net, netEnd, rwcClosed, srMode, srPending, rd, pipe, pipeEnd, prClosed, sent, got, ncn, nsent>>
+\* ... and then notifyClientGone: the call (CpNotify) and its effect under the connection's lock
+\* (CpNotified) are separate steps
+CpNotify == /\ cp = "closing" /\ cp' = "notifying"
+            /\ UNCHANGED <<net, netEnd, rwcClosed, srMode, srPending, rd, pipe, pipeEnd, prClosed, cn, gone, sent, got, ncn, nsent>>
+CpNotified == /\ cp = "notifying" /\ cp' = "done" /\ NotifyGone
+              /\ UNCHANGED <<net, netEnd, rwcClosed, srMode, srPending, rd, pipe, pipeEnd, prClosed, sent, got, ncn, nsent>>
 
-LibNext == RdEnter \/ RdRawData \/ RdRawEnd \/ RdPipeData \/ RdPipeEnd \/ RdFail \/ RdFinish \/ HandlerReturn \/ CpRead \/ CpEnd \/ CpWriteFails \/ CpNotify
+LibNext == RdEnter \/ RdRawData \/ RdRawEnd \/ RdPipeData \/ RdPipeEnd \/ RdFail \/ RdFinish \/ RdFinished \/ HandlerReturn \/ CpRead \/ CpEnd \/ CpWriteFails \/ CpNotify \/ CpNotified
 Next == \/ \E k \in {"m", "x"} : PeerSend(k)
         \/ \E h \in {"eof", "err"} : PeerEnd(h)
         \/ LocalClose \/ CloseNotify \/ LibNext
